@@ -122,10 +122,31 @@ from . import c13 as _c13  # noqa: E402
 from .shared import Renamed as _Renamed  # noqa: E402
 
 
+def rule_normalize_receiver(model, rep):
+    """`normalize_token` is a hybrid method: called on the class it checks the length against the class-level default `digits`, called on an
+    instance against that key's own digit count.  Only the instance form may sit on the verification path."""
+    R = "C14.e-token-length-per-key"
+    T_ = "passlib.totp"
+    n = 0
+    unit = model.unit(T_)
+    for q, fn in unit.functions():
+        if not q.startswith("TOTP.") or q == "TOTP.normalize_token":
+            continue
+        for c in walk_no_nested(fn):
+            if isinstance(c, ast.Call) and isinstance(c.func, ast.Attribute) and c.func.attr == "normalize_token":
+                n += 1
+                recv = ast.unparse(c.func.value)
+                rep.check(recv == "self", R, f"{T_}:{q}", f"{recv}.normalize_token(...)", "the token is normalised by the instance that holds the key (its own `digits`)",
+                          witness="TOTP.verify('12345678', <source of an 8-digit key>) raises MalformedTokenError: the class-level call checked the length against the default of 6 digits")
+    if n < 1:
+        rep.undecided(R, "<instance-count>", "no normalize_token call found in TOTP")
+
+
 def run(model, rep):
     rep.explanation = __doc__
     rule_match(model, rep)
     rule_find(model, rep)
+    rule_normalize_receiver(model, rep)
     # the window is counted in time steps: the counter the match starts from is floor(time / period) in integer arithmetic
     _c13.rule_time(model, _Renamed(rep, {"C13.b": "C14.c-time-to-counter"}, "C14.x-"))
     # ... and the candidate a token is compared with is produced by the RFC 4226 kernel from that counter
